@@ -1,5 +1,5 @@
 import HpoProps.C01
-import HpoProofs.Annotate
+import HpoProofs.AOps
 /-!
 # C02 — annotations reach exactly the ancestors; gene/disease records stay direct
 
@@ -10,21 +10,6 @@ quantifies over the kind. No bound on the number of terms, records or calls.
 -/
 namespace Hpo.C02
 open Hpo Hpo.C01 Relation Group
-
-/-- annotation-phase builder calls -/
-inductive AOp where
-  | addRec (k : Kind) (name : List Char) (id : Nat)
-  | annotate (k : Kind) (rid : Nat) (name : List Char) (t : Nat)
-deriving Repr
-
-/-- one call; an `Err` result leaves the builder unchanged -/
-def applyA (o : Onto) : AOp → Onto
-  | .addRec k n i => o.addRec k n i
-  | .annotate k rid n t => match o.annotate k rid n t with
-    | .ok o' => o'
-    | _ => o
-
-def runA (ops : List AOp) (o : Onto) : Onto := ops.foldl applyA o
 
 /-- the ancestor function of a connected ontology -/
 def ancOf (o : Onto) : Nat → List Nat := allOf o.terms
